@@ -217,8 +217,12 @@ def audit_reported(rec, rtol=1e-6):
         r = rep.get(name)
         if r is None:
             continue
+        # beyond solver noise: LP values are exact to about 1e-7 billion kcals (also on the wrong side of 0); in percent of the
+        # monthly need / in kcals per person per day that is the bound below
+        noise = 1e-6 * 100.0 / max(d["need"], 1e-300) * (21.0 if "kcals per person per day" in r["units"] else 1.0)
+        top = max([abs(v) for v in r["kcals"]] + [0.0])
         for m, x in enumerate(r["kcals"][:n]):
-            if x < -1e-9:
+            if x < -(noise + 1e-9 * top):
                 out.append(("C01:reported-negative-quantity", f"{name} month {m}: reported {x} ({r['units']})",
                             {"series": name, "month": m, "value": x}))
                 break
